@@ -192,7 +192,10 @@ def FORALL_IDX(seq, body: Callable[[Any, Any], Any], lo=0, hi=None, name="i"):
             hi_t = seq.length if hi is None else _lift(hi)
             guard = z3.And(_lift(lo) <= i, i < hi_t)
             b = _b(body(i, seq.at(CTX, i)))
-            return z3.ForAll([i], z3.Implies(guard, b), patterns=[z3.Select(seq.arr, i)])
+            try:
+                return z3.ForAll([i], z3.Implies(guard, b), patterns=[z3.Select(seq.arr, i)])
+            except z3.Z3Exception:  # e.g. a slice (lambda array): no usable trigger term
+                return z3.ForAll([i], z3.Implies(guard, b))
         items = seq.items if isinstance(seq, V.PyList) else list(seq)
         hi_c = len(items) if hi is None else hi
         return AND(*[body(i, items[i]) for i in range(lo, hi_c)])
